@@ -2,7 +2,7 @@
 (* server/replication/replication_mode.go: the dr-auto-sync state machine driven by tickDR.      *)
 (* Regions are a left-to-right sequence covering the key space; ok[i] = region i has reported     *)
 (* integrity under the CURRENT state id; hole[i] = there is a key-range gap in front of region i  *)
-(* (its predecessor is missing from the cache).  The recovery scan keeps a cursor (number of      *)
+(* (its predecessor is missing from the cache); hole has one more element: hole[Len(ok) + 1] = the end of the key space is not covered.  The recovery scan keeps a cursor (number of      *)
 (* regions already recovered from the left) across ticks and looks at Batch regions per step.     *)
 EXTENDS Integers, Sequences, FiniteSets, TLC
 CONSTANTS PRep, DRep,          \* replicas per datacenter
@@ -12,12 +12,12 @@ VARIABLES mode, state, sid, stored, offered, nextId,
           downP, downD, ok, hole, cursor, nOps, nFail, good
 vars == <<mode, state, sid, stored, offered, nextId, downP, downD, ok, hole, cursor, nOps, nFail, good>>
 Init == /\ mode = "dr" /\ state = "sync" /\ sid = 1 /\ stored = <<"sync", 1>> /\ offered = <<"sync", 1>> /\ nextId = 2
-        /\ downP = 0 /\ downD = 0 /\ ok = <<FALSE>> /\ hole = <<FALSE>> /\ cursor = 0 /\ nOps = 0 /\ nFail = 0 /\ good = TRUE
+        /\ downP = 0 /\ downD = 0 /\ ok = <<FALSE>> /\ hole = <<FALSE, FALSE>> /\ cursor = 0 /\ nOps = 0 /\ nFail = 0 /\ good = TRUE
 Step == nOps < MaxOps /\ nOps' = nOps + 1
 CanSync == downP < PRep /\ downD < DRep
 UpPeers == (IF downP < PRep THEN PRep - downP ELSE 0) + (IF downD < DRep THEN DRep - downD ELSE 0)
 HasMajority == UpPeers * 2 > PRep + DRep
-AllRecovered == \A i \in 1..Len(ok) : ok[i] /\ ~hole[i]
+AllRecovered == (\A i \in 1..Len(ok) : ok[i] /\ ~hole[i]) /\ ~hole[Len(ok) + 1]
 (* a transition: a fresh id is allocated, the new state is offered to the members and persisted; only then served *)
 Switch(s, fails) ==
   /\ nextId' = nextId + 1
@@ -36,7 +36,7 @@ Tick(fails) ==
            stop == {i \in scanned : ~ok[i] \/ hole[i]}
            newCursor == IF stop = {} THEN (IF scanned = {} THEN cursor ELSE cursor + Cardinality(scanned))
                         ELSE (CHOOSE i \in stop : \A j \in stop : i <= j) - 1 IN
-       IF newCursor = Len(ok) /\ Len(ok) > 0
+       IF newCursor = Len(ok) /\ Len(ok) > 0 /\ ~hole[Len(ok) + 1]
          THEN Switch("sync", fails) /\ good' = (good /\ (fails \/ AllRecovered))      \* C19: sync only after all
          ELSE cursor' = newCursor /\ UNCHANGED <<state, sid, stored, offered, nextId, ok, nFail, good>>
      ELSE UNCHANGED <<state, sid, stored, offered, nextId, ok, cursor, nFail, good>>
@@ -58,6 +58,11 @@ Lose(i) == /\ Step /\ i \in 1..(Len(ok) - 1) /\ i > cursor
            /\ ok' = SubSeq(ok, 1, i - 1) \o SubSeq(ok, i + 1, Len(ok))
            /\ hole' = SubSeq(hole, 1, i - 1) \o <<TRUE>> \o SubSeq(hole, i + 2, Len(hole))
            /\ UNCHANGED <<mode, state, sid, stored, offered, nextId, downP, downD, cursor, nFail, good>>
+(* the last region disappears: the end of the key space is no longer covered *)
+LoseTail == /\ Step /\ Len(ok) >= 2 /\ Len(ok) > cursor
+            /\ ok' = SubSeq(ok, 1, Len(ok) - 1)
+            /\ hole' = SubSeq(hole, 1, Len(ok) - 1) \o <<TRUE>>
+            /\ UNCHANGED <<mode, state, sid, stored, offered, nextId, downP, downD, cursor, nFail, good>>
 (* the administrator changes the replication mode; the switch back to dr-auto-sync persists sync_recover first, and *)
 (* when that write fails the mode stays what it was                                                              *)
 SwitchMode(fails) ==
@@ -66,7 +71,7 @@ SwitchMode(fails) ==
      ELSE Switch("sync_recover", fails) /\ mode' = (IF fails THEN mode ELSE "dr")
   /\ UNCHANGED <<downP, downD, hole, good>>
 Next == (\E f \in BOOLEAN : Tick(f)) \/ (\E dc \in {"p", "d"} : StoreDown(dc) \/ StoreUp(dc))
-        \/ (\E i \in 1..MaxRegions : Report(i) \/ Split(i) \/ Lose(i)) \/ (\E f \in BOOLEAN : SwitchMode(f))
+        \/ (\E i \in 1..MaxRegions : Report(i) \/ Split(i) \/ Lose(i)) \/ (\E f \in BOOLEAN : SwitchMode(f)) \/ LoseTail
 Spec == Init /\ [][Next]_vars
 SyncOnlyAfterAll == good
 FreshId == sid < nextId /\ stored[2] < nextId
